@@ -31,7 +31,9 @@ def base_case(draw, names, tier="quick"):
             "G": draw(gen.mat(3, 3, -0.6, 0.6)), "a": draw(gen.vec(3, -1, 1)), "A": draw(gen.mat(4, 3, -1, 1)), "data": draw(gen.vec(4, -2, 2)),
             "x0": draw(gen.vec(3, -1, 1)), "scale": draw(st.sampled_from([0.1, 0.4, 0.8])),
             "N": draw(st.integers(1, 12)), "M": draw(st.integers(0, 8)), "Nb": draw(st.sampled_from([0, 0, 3, 10])),
-            "cfrac": draw(st.floats(0, 1)), "seed": draw(st.integers(0, 10 ** 6))}
+            "cfrac": draw(st.floats(0, 1)), "seed": draw(st.integers(0, 10 ** 6)),
+            # a history of warm-up and sampling phases in any order
+            "phases": draw(st.one_of(st.just([]), st.lists(st.tuples(st.sampled_from(["sample", "warmup"]), st.integers(0, 4)), min_size=2, max_size=4)))}
 
 
 def smooth_target(c):
@@ -179,6 +181,31 @@ def run_exp(c, rec):
         XB = chain_of(sB)
         require(XB.shape == XA.shape and maxdiff(XA, XB) == 0, f"{name}: sample(N) then sample(M) differs from sample(N+M) under the same random stream",
                 N=N, M=M)
+        # ---- (iii') recording over other phase orders (warm-up after sampling, a second warm-up, ...)
+        phases = c.get("phases") or []
+        if phases:
+            log2 = []
+            cb2 = lambda sample, idx: log2.append((idx, np.array(sample, dtype=float).reshape(-1).copy()))
+            np.random.seed(c["seed"] + 1)
+            sE = make_exp(c, cb2)
+            done, refused_phase = 0, False
+            for kind, cnt in phases:
+                r, _ = refuses(lambda: sE.warmup(cnt) if kind == "warmup" else sE.sample(cnt))
+                if r:
+                    refused_phase = True      # a sampler may refuse a phase order; what was recorded until then must still be right
+                    break
+                done += cnt
+            XE = chain_of(sE)
+            if not refused_phase:
+                require(XE.shape[-1] == done, f"{name}: after the phases {phases} the chain does not have one entry per transition", got=XE.shape, transitions=done)
+                require(len(log2) == done, f"{name}: after the phases {phases} the callback was not invoked once per transition", calls=len(log2), transitions=done)
+                require([i for i, _ in log2] == list(range(done)), f"{name}: over the phases {phases} the callback indices are not the consecutive positions in the chain",
+                        indices=[i for i, _ in log2])
+                for i, smp in log2:
+                    require(maxdiff(XE[:, i], smp) == 0, f"{name}: over the phases {phases} a stored entry differs from the state handed to the callback", index=i)
+                rec.count("phase_orders_checked")
+            else:
+                rec.count("phase_order_refused")
         # ---- (ii) checkpoint at position c of the sampling phase
         tmp = tempfile.mkdtemp(prefix="c14_", dir="/tmp")
         try:
